@@ -91,7 +91,8 @@ def main(config, kconfig, sdkconfig_rename, env, env_file, version):
         env_vars = json.load(env_file)
         os.environ.update(env_vars)
 
-    run_server(kconfig, config, sdkconfig_rename)
+    # A version outside the supported range was warned about above: the initial status is sent in the nearest supported one
+    run_server(kconfig, config, sdkconfig_rename, min(max(version, MIN_PROTOCOL_VERSION), MAX_PROTOCOL_VERSION))
 
 
 def run_server(kconfig, sdkconfig, sdkconfig_rename, default_version=MAX_PROTOCOL_VERSION):
